@@ -237,9 +237,12 @@ class C15(Prop):
                 rhs = f"(Ok {{| a_frames := {_frames(r['frames'])}; a_times := {listlit(r['times'], qlit)}; a_step := {qlit(r['step'])} |}})"
                 parts.append(f"raudio_eqb {tol} {m} {rhs}")
         elif k == "resample":
-            if o["res"][0] != "ok" or o["res_step"] is None:
-                return "false"
             r = o["recording"]
+            if o["res"][0] != "ok":
+                # scipy raises when the requested length floor(n * ratio) is 0: the model says "no array is produced"
+                return f"match resample_axis {listlit(r['times'], qlit)} {qlit(r['step'])} {qlit(c['target'])} with None => true | Some _ => false end"
+            if o["res_step"] is None:
+                return "false"
             parts.append(f"ores {tol} (resample_axis {listlit(r['times'], qlit)} {qlit(r['step'])} {qlit(c['target'])}) {listlit(o['res_times'], qlit)} {qlit(o['res_step'])}")
         elif k == "spectrogram":
             if o["res"][0] != "ok" or o["sp_tstep"] is None or o["sp_fstep"] is None:
@@ -317,7 +320,11 @@ class C15(Prop):
             self._axis_truth(cl["times"], cl["step"], Fraction(off) / sr, "load_clip", fail)
         elif k == "resample":
             if o["res"][0] != "ok":
-                fail("raised", f"resample raised {o['res'][1]}: {o.get('msg', '')[:150]}")
+                # the property speaks about the arrays resample produces; when floor(n * target * step) = 0 there is no sample
+                # to produce (scipy raises ZeroDivisionError) — outside the property, not a failure
+                n_out = int(len(rec["times"]) * (c["target"] * rec["step"])) if rec.get("step") else 1
+                if n_out >= 1:
+                    fail("raised", f"resample raised {o['res'][1]}: {o.get('msg', '')[:150]}")
                 return fails
             if len(o["res_times"]) != o["res_n"]:
                 fail("resample-length", "time axis and data length differ")
